@@ -896,8 +896,8 @@ func init() {
 		Expect: "R20.no-aliased-compaction", Key: "fenceMatchRoam→newNearbys~oldNearbys", Why: "second seeded change for C20: the two neighbour lists share one array while the dwell loop compacts one of them in place"})
 	mutant(&Mutant{Name: "neutral-roam-same-position-copies-list", Props: []string{"C20"}, File: fFence, Neutral: true,
 		Old: "\tnewNearbys := fenceMatchNearbys(s, fence, obj)\n",
-		New: "\tvar newNearbys []roamMatch\n\tif r := obj.Geo().Rect(); old != nil && r.Min == r.Max && old.Geo().Rect() == r {\n\t\tnewNearbys = append([]roamMatch(nil), oldNearbys...)\n\t} else {\n\t\tnewNearbys = fenceMatchNearbys(s, fence, obj)\n\t}\n",
-		Why: "the same shortcut (a point re-set at the same position) with a copy of the list"})
+		New: "\tvar newNearbys []roamMatch\n\tif r := obj.Geo().Rect(); old != nil && objIsSpatial(old.Geo()) && r.Min == r.Max && old.Geo().Rect() == r {\n\t\tnewNearbys = append([]roamMatch(nil), oldNearbys...)\n\t} else {\n\t\tnewNearbys = fenceMatchNearbys(s, fence, obj)\n\t}\n",
+		Why: "the same shortcut (a point re-set at the same position) with a copy of the list; the previous value is tested for a position first — without that test the variant is not neutral (a STRING replaced by POINT 0 0) and R20.position-needs-spatial rightly reports it"})
 }
 
 func init() {
